@@ -10,12 +10,12 @@ import (
 
 func init() {
 	register(&Property{
-		ID:        "C36",
-		Roots:     []string{"snap/quota"},
-		Technique: "validate-before-mutate ordering (CFG must-pass gates on every store to the group's limit fields); value provenance of the reservation arithmetic in getQuotaAllocations and validate*ResourceFit (SSA); must-call / error-propagation in validateQuotasFit",
+		ID:          "C36",
+		Roots:       []string{"snap/quota"},
+		Technique:   "validate-before-mutate ordering (CFG must-pass gates on every store to the group's limit fields); value provenance of the reservation arithmetic in getQuotaAllocations and validate*ResourceFit (SSA); must-call / error-propagation in validateQuotasFit",
 		Explanation: "Structural necessary conditions of 'accepted quota groups always fit inside their parents' (the arithmetic invariant over all request sequences is not decided): (R1) UpdateQuotaLimits writes a limit field of the group only after ValidateChange and validateQuotasFit both succeeded, so a refused request leaves the group unchanged and the fit is computed against the limits in force; NewSubGroup attaches the sub-group only after its limits and the group itself validated; NewGroup likewise; (R2) getQuotaAllocations charges a parent, per sub-group and per resource, max(own limit, reserved by its children) - or an equivalent choice that takes 'reserved by children' only where the sub-group's allocation of that very resource is 0 - and recurses into every sub-group; (R3) validateMemory/CPU/ThreadResourceFit compute the room in the nearest limited ancestor as limit - (reservedByChildren - held) where 'held' is the group's own allocation or max(own, reserved by its children), refuse when the request exceeds it or when the children's reservation exceeds the request; (R4) validateQuotasFit gathers the allocations from the top-most ancestor, runs the fit check of every resource present in the request and returns their errors; (R5) validateCPUsAllowedResourceFit refuses a cpu-set that does not contain the children's sets or is not contained in the nearest ancestor set.",
-		NotDecided: "the numeric invariant itself (sum of children's effective reservations <= limit after every accepted sequence); Resources.Validate/ValidateChange value rules; cpu percentage semantics of GetLocalCPUQuota.",
-		Run:        runC36,
+		NotDecided:  "the numeric invariant itself (sum of children's effective reservations <= limit after every accepted sequence); Resources.Validate/ValidateChange value rules; cpu percentage semantics of GetLocalCPUQuota.",
+		Run:         runC36,
 	})
 }
 
@@ -168,7 +168,7 @@ func runC36(c *Ctx) {
 	}
 
 	// ---- R3
-	c.Rule("C36-R3", "W+G", "validate{Memory,CPU,Thread}ResourceFit: room = limit - (reservedByChildren - held); held = own | max(own, children)", 9)
+	c.Rule("C36-R3", "W+G", "validate{Memory,CPU,Thread}ResourceFit: room = limit - (reservedByChildren - held); held = own | max(own, children)", 12)
 	type fit struct {
 		fn       string
 		lim, rsv *types.Var
@@ -274,6 +274,50 @@ func runC36(c *Ctx) {
 			}
 			c.Check(okR && found > 0, key+"#refuses-when-over", cmp.Pos(), "request > room => error", "a request larger than the room left in the ancestor is not refused")
 		}
+		// the amount compared with the room is the REQUEST: computed from the requested limits (and, for a
+		// count-less cpu quota, the size of the allowed cpu-set or of the machine), never from the group's
+		// current quota
+		if len(refuse) == 1 {
+			reqV := refuse[0].X
+			if Strip(refuse[0].X) == ssa.Value(room) {
+				reqV = refuse[0].Y
+			}
+			getSet := P.FuncObj(pkg + ".(*Group).GetCPUSetQuota")
+			numCPU := P.Global(pkg + ".runtimeNumCPU")
+			foreign := ""
+			DependsOn(reqV, func(v ssa.Value) bool {
+				cc, _, isCall := CallResult(v)
+				if !isCall {
+					if _, f, ok := FieldLoad(Strip(v)); ok && f.Pkg() != nil && (f == G("CPULimit") || f == G("MemoryLimit") || f == G("ThreadLimit")) {
+						foreign = "the group's current " + f.Name()
+					}
+					return false
+				}
+				if VLen(VRes(0, ToFn(getSet)))(v) || ViaGlobal(numCPU)(cc) {
+					return false
+				}
+				if b, ok := cc.Common().Value.(*ssa.Builtin); ok && b.Name() == "len" {
+					return false
+				}
+				foreign = "a call of " + func() string {
+					if co := CalleeOf(cc); co != nil {
+						return FuncName(co)
+					}
+					return "an unknown function"
+				}()
+				return false
+			})
+			fromParam := DependsOn(reqV, func(v ssa.Value) bool {
+				r := accessRoot(v)
+				for i := 1; i < len(fn.Params); i++ {
+					if r == ssa.Value(fn.Params[i]) || ResolvesToParam(r, fn, i) {
+						return true
+					}
+				}
+				return false
+			})
+			c.Check(foreign == "" && fromParam, key+"#request-from-requested-limits", refuse[0].Pos(), "the amount checked is computed from the requested limits", "the amount checked against the ancestor's room is not computed from the requested limits alone ("+foreign+"): what is validated differs from what is stored")
+		}
 		// children's reservation > request refuses
 		okC := false
 		for _, b := range fn.Blocks {
@@ -366,48 +410,84 @@ func runC36(c *Ctx) {
 	}
 
 	// ---- R5
-	c.Rule("C36-R5", "G", "validateCPUsAllowedResourceFit: superset of the children's sets, subset of the nearest ancestor set", 2)
+	c.Rule("C36-R5", "G", "validateCPUsAllowedResourceFit: superset of the children's sets, subset of the nearest ancestor set; the ancestor walk is skipped only when the request narrows the current set", 3)
 	vcs := P.Func(pkg + ".(*Group).validateCPUsAllowedResourceFit")
-	var isSup *ssa.Function
-	for _, af := range vcs.AnonFuncs {
-		isSup = af
+	containsObj := P.FuncObj(pkg + ".contains")
+	// subsetParam: for a two-slice predicate h that ranges over one parameter and asks contains(other, elem),
+	// the index of the parameter that must be the SUBSET (-1: not such a predicate)
+	subsetParam := func(h *ssa.Function) int {
+		if h == nil || len(h.Blocks) == 0 {
+			return -1
+		}
+		// closures have no receiver; parameters are the two slices
+		if len(h.Params) != 2 {
+			return -1
+		}
+		for k := 0; k < 2; k++ {
+			for _, rl := range LoopsOver(h, VParam(h, k)) {
+				for _, cc := range CallSites(h, containsObj) {
+					if rl.Body != nil && rl.Body.Dominates(cc.Block()) && VParam(h, 1-k)(cc.Common().Args[0]) {
+						// it must answer false for a missing element
+						for _, lf := range ReturnLeaves(h, 0) {
+							if bv, ok := ConstBool(lf.Val); ok && !bv && lf.Instr != nil && rl.Body.Dominates(lf.Instr.Block()) {
+								return k
+							}
+						}
+					}
+				}
+			}
+		}
+		return -1
 	}
-	if isSup == nil || len(vcs.AnonFuncs) != 1 {
-		c.Undecided(pkg+".Group.validateCPUsAllowedResourceFit#isSuperset", vcs.Pos(), "expected the single isSuperset helper")
-		return
+	calleeFn := func(ci ssa.CallInstruction) *ssa.Function {
+		if ci.Common().IsInvoke() {
+			return nil
+		}
+		if f := StaticFn(ci); f != nil {
+			return f
+		}
+		if mc, ok := Strip(ci.Common().Value).(*ssa.MakeClosure); ok {
+			f, _ := mc.Fn.(*ssa.Function)
+			return f
+		}
+		f, _ := Strip(ci.Common().Value).(*ssa.Function)
+		return f
 	}
-	isSupCall := func(a, b func(ssa.Value) bool) CallM {
+	nSubsetPreds := 0
+	// subsetCall: a call asking "sub ⊆ sup", whatever the helper's parameter order
+	subsetCall := func(sub, sup func(ssa.Value) bool) CallM {
 		return func(ci ssa.CallInstruction) bool {
-			if ci.Common().IsInvoke() {
+			h := calleeFn(ci)
+			if h == nil || len(ci.Common().Args) != 2 {
 				return false
 			}
-			mc, ok := Strip(ci.Common().Value).(*ssa.MakeClosure)
-			var fn *ssa.Function
-			if ok {
-				fn, _ = mc.Fn.(*ssa.Function)
-			} else {
-				fn, _ = Strip(ci.Common().Value).(*ssa.Function)
-			}
-			if fn != isSup || len(ci.Common().Args) != 2 {
+			k := subsetParam(h)
+			if k < 0 {
 				return false
 			}
-			return a(ci.Common().Args[0]) && b(ci.Common().Args[1])
+			return sub(ci.Common().Args[k]) && sup(ci.Common().Args[1-k])
 		}
 	}
-	req := VParam(vcs, 2)
-	type sc struct {
-		name string
-		m    CallM
+	for _, b := range vcs.Blocks {
+		for _, in := range b.Instrs {
+			if ci, ok := in.(ssa.CallInstruction); ok {
+				if h := calleeFn(ci); h != nil && subsetParam(h) >= 0 {
+					nSubsetPreds++
+				}
+			}
+		}
 	}
-	for _, s := range []sc{
-		{"children-within-request", isSupCall(req, VField(A("CPUSetReservedByChildren")))},
-		{"request-within-ancestor", isSupCall(VField(A("CPUSetLimit")), req)},
-	} {
-		notSup := TrueRes("!isSuperset", false, 0, s.m)
+	if nSubsetPreds < 3 {
+		c.Undecided(pkg+".Group.validateCPUsAllowedResourceFit#containment-tests", vcs.Pos(), fmt.Sprintf("expected three set-containment tests (children, shortcut, ancestor), recognised %d", nSubsetPreds))
+		return
+	}
+	req := VParam(vcs, 2)
+	refusesWhenNot := func(name string, m CallM) {
+		notSub := TrueRes("!("+name+")", false, 0, m)
 		okR, found := true, 0
 		for _, b := range vcs.Blocks {
 			for si := range b.Succs {
-				if AtomEdges(notSup)(b, si) {
+				if AtomEdges(notSub)(b, si) {
 					found++
 					if (ReachQ{Fn: vcs, From: &Loc{b.Succs[si], -1}, Sink: IsSuccessReturn}).Run().Found {
 						okR = false
@@ -415,8 +495,38 @@ func runC36(c *Ctx) {
 				}
 			}
 		}
-		c.Check(okR && found > 0, pkg+".Group.validateCPUsAllowedResourceFit#"+s.name, vcs.Pos(), "not a superset => error", "the cpu-set containment check ("+s.name+") is missing or does not refuse")
+		c.Check(okR && found > 0, pkg+".Group.validateCPUsAllowedResourceFit#"+name, vcs.Pos(), "containment fails => error", "the cpu-set containment check ("+name+") is missing, has its operands the wrong way round, or does not refuse")
 	}
+	withinAncestor := subsetCall(req, VField(A("CPUSetLimit")))
+	refusesWhenNot("children-within-request", subsetCall(VField(A("CPUSetReservedByChildren")), req))
+	refusesWhenNot("request-within-ancestor", withinAncestor)
+	// accepting without having looked at the ancestors: only when the request narrows the group's own current set
+	localSet := VRes(0, ToFn(P.FuncObj(pkg+".(*Group).GetLocalCPUSetQuota")))
+	narrows := TrueRes("request within the group's current set", true, 0, subsetCall(req, localSet))
+	noMoreParents := Atom{Name: "no (more) ancestors", Match: func(cd Cond) Pol {
+		return cd.CmpIs(token.EQL, func(v ssa.Value) bool {
+			_, isPhi := Strip(v).(*ssa.Phi)
+			return isPhi && isGroupPtr(v.Type())
+		}, isNilVal)
+	}}
+	checkedAncestor := TrueRes("request within the nearest ancestor set", true, 0, withinAncestor)
+	n = 0
+	for _, r := range ReturnsOf(vcs) {
+		if !IsSuccessReturn(r) {
+			continue
+		}
+		n++
+		c.Guarded(fmt.Sprintf("%s.Group.validateCPUsAllowedResourceFit#accepts#%d", pkg, n), vcs, r, []Clause{{narrows, noMoreParents, checkedAncestor}}, nil)
+	}
+}
+
+func isGroupPtr(t types.Type) bool {
+	p, ok := t.(*types.Pointer)
+	if !ok {
+		return false
+	}
+	n, ok := p.Elem().(*types.Named)
+	return ok && n.Obj().Name() == "Group"
 }
 
 // tryFlowGate: every path to the flow point (an edge into a phi) passes an edge establishing a.
@@ -430,4 +540,46 @@ func tryFlowGate(fn *ssa.Function, fp FlowPoint, a Atom) bool {
 	}
 	r := ReachQ{Fn: fn, CutEdge: cut, SinkEdge: func(b *ssa.BasicBlock, s int) bool { return b == fp.EdgeFrom && s == fp.EdgeSucc }}.Run()
 	return !r.Found
+}
+
+// accessRoot walks a field/element access chain (x.f.g[i], *p) back to the value it starts from.
+func accessRoot(v ssa.Value) ssa.Value {
+	for i := 0; i < 16 && v != nil; i++ {
+		switch x := v.(type) {
+		case *ssa.UnOp:
+			if x.Op != token.MUL {
+				return v
+			}
+			if al, ok := x.X.(*ssa.Alloc); ok {
+				if sv := singleStore(al); sv != nil {
+					v = sv
+					continue
+				}
+				return v
+			}
+			v = x.X
+		case *ssa.Alloc:
+			// a parameter spilled into a local because its address is taken
+			sv := singleStoreIgnoringReaders(x)
+			if sv == nil {
+				return v
+			}
+			v = sv
+		case *ssa.FieldAddr:
+			v = x.X
+		case *ssa.Field:
+			v = x.X
+		case *ssa.IndexAddr:
+			v = x.X
+		case *ssa.Index:
+			v = x.X
+		case *ssa.ChangeType:
+			v = x.X
+		case *ssa.Convert:
+			v = x.X
+		default:
+			return v
+		}
+	}
+	return v
 }
